@@ -98,6 +98,13 @@ def extra(res, findings, tier, rng, harness, driver):
         if other:
             res.violation("concurrent printing (mixed levels): %d data race report(s) outside the recorded finding; first: %s" % (len(other), other[0][:1500]),
                           {"ops": [], "racer_cmd": "%s 8 2 mixed <corpus files>" % racer, "race_report": other[0][:3000]})
+    # block-level printing alone, on freshly parsed modules (nothing was numbered, no lazily cached type settled under a lock): Block.LLString from every goroutine
+    rc3, cases3, races3, mism3, err3 = run_racer(racer, 8, 3 if tier == "quick" else 20, "blocks", files)
+    if races3 or mism3 or rc3 not in (0,):
+        first = err3[err3.find("WARNING: DATA RACE"):][:3000] if races3 else "\n".join(mism3[:5])
+        res.violation("concurrent printing of basic blocks (Block.LLString on a freshly parsed module): %d data race report(s), %d text mismatch(es), exit %d; first: %s"
+                      % (races3, len(mism3), rc3, first[:1500]), {"ops": [], "racer_cmd": "%s 8 3 blocks <corpus/ll/*.ll>" % racer, "race_report": first})
+    cases = cases + cases3
     return {"evaluations": len(cases) + len(cases2), "distinct_nontrivial": len(set(cases)) + len(set(cases2)), "rule": RULE,
             "samples": cases[:3] + cases2[:2], "goroutines": g, "rounds": rounds, "race_reports_module_mode": races, "race_reports_mixed_mode": races2,
             "racer_wall_s": round(time.time() - t0, 1)}
